@@ -930,13 +930,14 @@ func (fr *frame) srcAnchor(pos token.Pos, want func(ast.Node) bool, fallback str
 // MakeOblList turns pendings into obligations with queries.
 func (g *Gen) finish(prelude string) []*core.Obl {
 	var out []*core.Obl
-	declText := prelude + strings.Join(g.decls, "\n") + "\n"
-	full := declText + strings.Join(g.asserts, "\n") + "\n"
+	decls := strings.Join(g.decls, "\n") + "\n"
 	for _, p := range g.obls {
-		ctx := full
+		body := strings.Join(g.asserts, "\n") + "\n"
 		if p.nasserts > 0 && p.nasserts < len(g.asserts) {
-			ctx = declText + strings.Join(g.asserts[:p.nasserts], "\n") + "\n"
+			body = strings.Join(g.asserts[:p.nasserts], "\n") + "\n"
 		}
+		// only the ghost definitions this query mentions (transitively)
+		ctx := prelude + g.Eng.GhostFor(body+p.cond) + decls + body
 		o := &core.Obl{Name: p.name, Func: g.key, Kind: p.kind, Tier: core.Proved, Canary: p.canary, Detail: p.detail, Pos: p.pos}
 		if p.decided != "" {
 			o.Solver = "modset-inference"
